@@ -101,6 +101,35 @@ def main(tier):
         n += r[0]
         d += r[1]
         viols.extend(r[2])
+    # the table does not depend on the group flags a type object carries (boolean results, constants, hybrid values, long-typed ...)
+    G = VT.VTGroup
+    flagsets = [G.PURE, G.BOOL, G.CONST, G.HYBRID_LVAR, G.ARCH_LONG, G.PURE | G.CONST, G.BOOL | G.HYBRID_LVAR]
+    gv = []
+    gcases = 0
+    gtypes = [(s, w) for w in (1, 8, 16, 32, 64, 128) for s in (True, False)]
+    for a_sw in gtypes:
+        for b_sw in gtypes:
+            exp = c11_ref(a_sw[0], a_sw[1], b_sw[0], b_sw[1])
+            for ga in flagsets:
+                for gb in (G.PURE, G.BOOL, G.CONST):
+                    gcases += 1
+                    a, b = VT.ValueType(a_sw[0], a_sw[1], ga), VT.ValueType(b_sw[0], b_sw[1], gb)
+                    try:
+                        ra, rb = c11(a, b)
+                        got = ((ra._signed, ra._bit_width), (rb._signed, rb._bit_width))
+                        ok = got == (exp, exp) and (a._signed, a._bit_width, a.group) == (a_sw[0], a_sw[1], ga) and (b._signed, b._bit_width, b.group) == (b_sw[0], b_sw[1], gb)
+                    except Exception as e:  # noqa
+                        got, ok = repr(e)[:60], False
+                    if not ok and len(gv) < 10:
+                        gv.append(("table_with_group_flags", (a_sw, str(ga)), (b_sw, str(gb)), got, exp))
+            for ga in flagsets:
+                gcases += 1
+                t = VT.ValueType(a_sw[0], a_sw[1], ga)
+                r = promoted(t)
+                if (r._signed, r._bit_width) != promo_ref(*a_sw) or (t._signed, t._bit_width, t.group) != (a_sw[0], a_sw[1], ga):
+                    if len(gv) < 10:
+                        gv.append(("promo_with_group_flags", (a_sw, str(ga)), (r._signed, r._bit_width), promo_ref(*a_sw)))
+    viols.extend(gv)
     pv = []
     for w in widths:
         for s in (True, False):
@@ -109,7 +138,7 @@ def main(tier):
         run.violation(f"{v[0]}: {v[1:]}", {"kind": v[0], "detail": v[1:]}, key=v[0])
     samples = [{"a": pairs[i][0], "b": pairs[i][1], "c11": c11_ref(*pairs[i][0], *pairs[i][1])} for i in (1, 30, 77, 300)] if tier == "quick" else \
         [{"a": (True, 31), "b": (False, 32), "c11": c11_ref(True, 31, False, 32)}, {"a": (True, 2048), "b": (False, 2047), "c11": c11_ref(True, 2048, False, 2047)}]
-    run.assumptions = ["rank = bit width (as the property states)", "types are built with ValueType(signed, width) in the PURE group"]
+    run.assumptions = ["rank = bit width (as the property states)", "the exhaustive part builds types with ValueType(signed, width) in the PURE group; 12 types squared are repeated with 7 x 3 combinations of group flags"]
     run.finish({
         "evaluations": n + 2 * len(list(widths)),
         "distinct_nontrivial": d if exhaustive else len({p for p in pairs if p[0] != p[1]}),
@@ -119,7 +148,7 @@ def main(tier):
         "samples": samples,
         "exhaustive": exhaustive,
         "domain": "24 producible types squared + 20000 random pairs in 1..2048" if tier == "quick" else "all (s,w) with w in 1..2048, squared",
-        "promotion_cases": 2 * len(list(widths)),
+        "promotion_cases": 2 * len(list(widths)), "cases_with_group_flags": gcases,
     }, hard_inconclusive=None if n else "no contract evaluation happened")
 
 
